@@ -400,8 +400,10 @@ static int dispatch(HttpAsyncCtx *clientCtx) {
 
 				if (req->raw != NULL) {
 					curl_easy_setopt(curlRequest->easyHandle, CURLOPT_POST, 1);
-					curl_easy_setopt(curlRequest->easyHandle, CURLOPT_POSTFIELDS, (char *)req->raw);
+					/* The request handle may be re-added (and its buffer released) while this transfer is still in
+					 * progress, thus let curl keep a private copy of the payload. */
 					curl_easy_setopt(curlRequest->easyHandle, CURLOPT_POSTFIELDSIZE, (long)req->len);
+					curl_easy_setopt(curlRequest->easyHandle, CURLOPT_COPYPOSTFIELDS, (char *)req->raw);
 				} else {
 					curl_easy_setopt(curlRequest->easyHandle, CURLOPT_POST, 0);
 				}
